@@ -11,7 +11,8 @@ theorem find_inv {s d : ETy} {c : Conversion} (h : find s d = .ok (some c)) :
     c.source = s ∧ c.valueCast = decide (s.vt = .lvalue ∧ d.vt = .rvalue) ∧
     dimensionCast s.ty.layer d.ty.layer (decide (d.vt = .lvalue)) = some c.dimCast ∧
     primaryCast s.ty.layer d.ty.layer = .ok (some c.primary) ∧
-    modifierCast s.ty.mod d.ty.mod (decide (d.vt = .lvalue)) = some c.modCast := by
+    ∃ mc, modifierCast s.ty.mod d.ty.mod (decide (d.vt = .lvalue)) = some mc ∧
+      c.modCast = sharedModifierCast c.primary d.ty.mod mc := by
   unfold find at h
   split at h
   · simp at h
@@ -29,7 +30,7 @@ theorem find_inv {s d : ETy} {c : Conversion} (h : find s d = .ok (some c)) :
         · rename_i mc hmc
           simp only [Except.ok.injEq, Option.some.injEq] at h
           subst h
-          exact ⟨hv, rfl, rfl, hdc, hpc, hmc⟩
+          exact ⟨hv, rfl, rfl, hdc, hpc, mc, hmc, rfl⟩
 
 theorem modifierCast_some {a b : Modifier} {lv : Bool} {mc : Option Modifier}
     (h : modifierCast a b lv = some mc) : (mc = some b ∧ a ≠ b) ∨ (mc = none ∧ a = b) := by
@@ -130,12 +131,19 @@ theorem targetType_noPrimary (c : Conversion) (h : c.primary = none) :
   simp only [h]
   rfl
 
-theorem targetType_ok {s d : ETy} {c : Conversion} (h : find s d = .ok (some c)) :
-    ∃ t, targetType c = .ok t ∧ t.vt = d.vt ∧ t.ty.layer = d.ty.layer ∧
-      (t.ty.mod = d.ty.mod ∨ (t.ty.mod = {} ∧ s.ty.mod = d.ty.mod ∧ c.primary ≠ none ∧ d.vt = .rvalue)) := by
-  obtain ⟨hv, hsrc, hvc, hdc, hpc, hmc⟩ := find_inv h
+theorem ety_ext {a b : ETy} (h1 : a.vt = b.vt) (h2 : a.ty.layer = b.ty.layer) (h3 : a.ty.mod = b.ty.mod) : a = b := by
+  obtain ⟨⟨am, al⟩, av⟩ := a
+  obtain ⟨⟨bm, bl⟩, bv⟩ := b
+  simp only at h1 h2 h3
+  subst h1 h2 h3
+  rfl
+
+/-- **`find` is sound**: the conversion it returns produces exactly the requested type (and `get_target_type`
+    does not panic on it) -/
+theorem targetType_ok {s d : ETy} {c : Conversion} (h : find s d = .ok (some c)) : targetType c = .ok d := by
+  obtain ⟨hv, hsrc, hvc, hdc, hpc, mc0, hmc, hshared⟩ := find_inv h
   obtain ⟨src, vc, dc, pc, mc⟩ := c
-  simp only at hsrc hvc hdc hpc hmc
+  simp only at hsrc hvc hdc hpc hshared
   subst hsrc
   -- value category after the value-type cast
   have hvt : (if vc = true then (⟨src.ty, .rvalue⟩ : ETy) else src).vt = d.vt ∧
@@ -153,12 +161,25 @@ theorem targetType_ok {s d : ETy} {c : Conversion} (h : find s d = .ok (some c))
         simp only [hd, decide_true] at hdc
         have := lvalue_no_primary hdc hpc
         simp at this
-    rcases modifierCast_some hmc with ⟨rfl, hne⟩ | ⟨rfl, heq⟩
-    · refine ⟨⟨⟨d.ty.mod, d.ty.layer⟩, .rvalue⟩, ?_, hdr.symm, rfl, Or.inl rfl⟩
-      simp [targetType, hdest]
-    · refine ⟨⟨⟨{}, d.ty.layer⟩, .rvalue⟩, ?_, hdr.symm, rfl, Or.inr ⟨rfl, heq, by simp, hdr⟩⟩
-      simp [targetType, hdest]
+    have hmcd : mc = some d.ty.mod ∨ (mc = none ∧ d.ty.mod = {}) := by
+      subst hshared
+      rcases modifierCast_some hmc with ⟨rfl, _⟩ | ⟨rfl, _⟩
+      · exact Or.inl rfl
+      · by_cases hd0 : d.ty.mod = {}
+        · exact Or.inr ⟨by simp [sharedModifierCast, hd0], hd0⟩
+        · exact Or.inl (by simp [sharedModifierCast, hd0])
+    rcases hmcd with rfl | ⟨rfl, hd0⟩
+    · have : targetType ⟨src, vc, dc, some p, some d.ty.mod⟩ = .ok ⟨⟨d.ty.mod, d.ty.layer⟩, .rvalue⟩ := by
+        simp [targetType, hdest]
+      rw [this]
+      exact congrArg _ (ety_ext hdr.symm rfl rfl)
+    · have : targetType ⟨src, vc, dc, some p, none⟩ = .ok ⟨⟨{}, d.ty.layer⟩, .rvalue⟩ := by
+        simp [targetType, hdest]
+      rw [this]
+      exact congrArg _ (ety_ext hdr.symm rfl hd0.symm)
   | none =>
+    have hmc' : mc = mc0 := by subst hshared; cases mc0 <;> simp [sharedModifierCast]
+    subst hmc'
     have hl := noPrimary_layer hdc hpc
     obtain ⟨hvt1, hvt2⟩ := hvt
     rw [← hvt2] at hl
@@ -166,7 +187,8 @@ theorem targetType_ok {s d : ETy} {c : Conversion} (h : find s d = .ok (some c))
     rw [targetType_noPrimary _ rfl]
     simp only [hty, hb]
     rcases modifierCast_some hmc with ⟨rfl, hne⟩ | ⟨rfl, heq⟩
-    · exact ⟨_, rfl, by rw [hb1, hvt1], hb2, Or.inl rfl⟩
-    · exact ⟨_, rfl, by rw [hb1, hvt1], hb2, Or.inl (by rw [hb3, hvt2, heq])⟩
+    · exact congrArg Except.ok
+        (ety_ext (a := ⟨⟨d.ty.mod, b.ty.layer⟩, b.vt⟩) (by simp only [hb1, hvt1]) hb2 rfl)
+    · exact congrArg Except.ok (ety_ext (by rw [hb1, hvt1]) hb2 (by rw [hb3, hvt2, heq]))
 
 end RsslVerif.Lemmas.ElabConv
